@@ -1,0 +1,20 @@
+//go:build verif
+
+package tbtcpg
+
+import "github.com/keep-network/keep-core/pkg/bitcoin"
+
+// Verification hook (build tag verif): re-exports existing identifiers only.
+
+// VerifC30DepositScriptByteSize is the deposit script length assumed by the
+// deposit sweep fee estimation.
+const VerifC30DepositScriptByteSize = depositScriptByteSize
+
+// VerifC30EstimateDepositsSweepFee re-exports estimateDepositsSweepFee.
+func VerifC30EstimateDepositsSweepFee(
+	btcChain bitcoin.Chain,
+	depositsCount int,
+	perDepositMaxFee uint64,
+) (int64, int64, error) {
+	return estimateDepositsSweepFee(btcChain, depositsCount, perDepositMaxFee)
+}
